@@ -1,6 +1,6 @@
 (* C01TableProofs.v — every entry of leaf_table is lossless and yields a leaf whose name is the table key. *)
 From V.lib Require Import Base.
-From V.c01 Require Import C01Codec C01Model C01LeafProofs C01Leaf2Proofs C01Leaf3Proofs C01Leaf4Proofs C01Leaf5Proofs C01LocalProofs C01EsdsProofs C01SgpdProofs.
+From V.c01 Require Import C01Codec C01Model C01LeafProofs C01Leaf2Proofs C01Leaf3Proofs C01Leaf4Proofs C01Leaf5Proofs C01Leaf6Proofs C01LocalProofs C01EsdsProofs C01SgpdProofs.
 
 Definition entry_ok (e : list N * (hdr -> parser (leaf * rsvT))) : Prop :=
   leaf_lossless (snd e) /\
@@ -57,11 +57,30 @@ Proof.
     try (destruct (16 <? h_size h); [discriminate H|]); injection H as <- _ _; reflexivity.
 Qed.
 
+(* the name lemmas of dec_whole ask bytes_ok of the input, which entry_ok does not give: the constructor is read off the run *)
+Lemma dac3_name h r l rsv r' : dec_dac3 h r = Ok ((l, rsv), r') -> leaf_name l = n_dac3.
+Proof.
+  intros H. unfold dec_dac3, dec_whole in H. apply pbind_ok in H. destruct H as (d & r1 & _ & H).
+  destruct (dac3_of d) as [l0|] eqn:E; [|discriminate]. injection H as <- _ _. unfold dac3_of in E.
+  destruct (lenN d <? 3).
+  - destruct (dac3_fields _) as [[[[[[a b] c] d0] e] f] g]. injection E as <-. reflexivity.
+  - destruct (rdB _ d) as [[zs rest]| | |]; try discriminate. destruct (negb (forallb (N.eqb 0) zs)); [discriminate|].
+    destruct (rd 3 rest) as [[w extra]| | |]; try discriminate.
+    destruct (dac3_fields w) as [[[[[[a b] c] d0] e] f] g]. injection E as <-. reflexivity.
+Qed.
+Lemma dec3_name h r l rsv r' : dec_dec3 h r = Ok ((l, rsv), r') -> leaf_name l = n_dec3.
+Proof.
+  intros H. unfold dec_dec3, dec_whole in H. apply pbind_ok in H. destruct H as (d & r1 & _ & H).
+  destruct (dec3_of d) as [l0|] eqn:E; [|discriminate]. injection H as <- _ _. unfold dec3_of in E.
+  match type of E with match ?p with _ => _ end = _ => destruct p as [[[dr subs] reserved]| | |]; try discriminate end.
+  injection E as <-. reflexivity.
+Qed.
+
 Lemma leaf_table_ok : Forall entry_ok leaf_table.
 Proof.
   unfold leaf_table.
   repeat apply Forall_cons; try apply Forall_nil; split; cbn [fst snd];
-    try first [ exact lossless_ftyp | exact lossless_free | exact lossless_empty | exact lossless_b4 | exact lossless_data | exact lossless_mime | exact lossless_mdat | exact lossless_mfhd
+    try first [ exact lossless_ftyp | exact lossless_free | exact lossless_empty | exact lossless_b4 | exact lossless_data | exact lossless_mime | exact lossless_dac3 | exact lossless_dec3 | exact lossless_mdat | exact lossless_mfhd
               | exact lossless_tfhd | exact lossless_tfdt | exact lossless_trun | exact lossless_mvhd
               | exact lossless_tkhd | exact lossless_sidx | exact lossless_trex | exact lossless_mdhd
               | exact lossless_hdlr | exact lossless_stts
@@ -75,6 +94,8 @@ Proof.
               | exact lossless_senc | exact lossless_emsg | exact lossless_elng | exact lossless_kind
               | exact lossless_hvcC | exact lossless_subs | exact lossless_esds | exact lossless_uuid | exact lossless_sgpd ];
     intros h r l rsv r' Hn H;
+    try (apply (dac3_name _ _ _ _ _ H));
+    try (apply (dec3_name _ _ _ _ _ H));
     try (apply (avcC_name _ _ _ _ _ H));
     try (apply (hvcC_name _ _ _ _ _ H));
     try (apply (esds_name _ _ _ _ _ H));
